@@ -15,7 +15,7 @@ theorem actionOutcome_plain (cx : Ctx) (i : Nat) (a : AMode) (act : ActionSpec) 
     intro b e'; simp [ActionSpec.throws, h.1]
   have hv : ∀ b e', act.vetoes i b e' = false := by
     intro b e'
-    rcases h.2 with h2 | h2 <;> simp [ActionSpec.vetoes, h2]
+    rcases h.2.1 with h2 | h2 <;> simp [ActionSpec.vetoes, h2]
   split
   · simp [ht, hv]
   · simp
@@ -51,16 +51,19 @@ theorem nodeCall_sem (k i : Nat) (a : AMode) (m : RMode) (env : Env) (st : St) (
   split at h
   · exact absurd h (by simp)
   · rename_i nd hn
-    split at h
-    · simp only [Option.map_eq_some_iff] at h
-      obtain ⟨r0, h0, rfl⟩ := h
-      obtain ⟨o, ho, s⟩ := body_sem hg hs hnf wf k i nd hn a m env st r0 hv h0
-      exact ⟨o, (absO_bracket ..).trans ho, .ref (Gof_of hn) s⟩
-    · simp only [Option.map_eq_some_iff] at h
-      obtain ⟨r0, h0, rfl⟩ := h
+    have hw : (cx.actOf env i nd).wrap = .none := (wf.plain env i nd hn).2.2
+    simp only [hw, Option.map_eq_some_iff] at h
+    obtain ⟨r1, h1, rfl⟩ := h
+    refine SemR.congr ?_ (absO_bracket ..)
+    unfold nodeCore at h1
+    split at h1
+    · obtain ⟨o, ho, s⟩ := body_sem hg hs hnf wf k i nd hn a m env st r1 hv h1
+      exact ⟨o, ho, .ref (Gof_of hn) s⟩
+    · simp only [Option.map_eq_some_iff] at h1
+      obtain ⟨r0, h0, rfl⟩ := h1
       obtain ⟨o, ho, s⟩ := body_sem hg hs hnf wf k i nd hn a _ env st r0 hv h0
       refine ⟨o, ?_, .ref (Gof_of hn) s⟩
-      rw [absO_bracket, absO_guard, ← ho]
+      rw [absO_guard, ← ho]
       apply absO_congr
       · simp [afterBody_plain_res _ _ _ _ _ _ (wf.plain env i nd hn)]
       · simp
@@ -129,14 +132,17 @@ theorem run_mustlike_nofail (cx : Ctx) (wf : WFT cx) :
           have := seqAll_nofail (rec := fun i a m env st => run cx n i a m env st) a .optional env cs st r1
             (fun c hc st' r' hr' => hchild c hc _ st' r' hr') h1
           simpa using this
-    split at h
-    · simp only [Option.map_eq_some_iff] at h
-      obtain ⟨r0, h0, rfl⟩ := h
-      simpa using hbody _ _ h0
-    · simp only [Option.map_eq_some_iff] at h
-      obtain ⟨r0, h0, rfl⟩ := h
+    have hw : (cx.actOf env j nd).wrap = .none := (wf.plain env j nd hn).2.2
+    simp only [hw, Option.map_eq_some_iff] at h
+    obtain ⟨r1, h1, rfl⟩ := h
+    simp only [bracket_res]
+    unfold nodeCore at h1
+    split at h1
+    · exact hbody _ _ h1
+    · simp only [Option.map_eq_some_iff] at h1
+      obtain ⟨r0, h0, rfl⟩ := h1
       have := hbody _ _ h0
-      simp only [bracket_res, guardRestore_res]
+      simp only [guardRestore_res]
       rw [afterBody_plain_res _ _ _ _ _ _ (wf.plain env j nd hn)]
       exact this
 
